@@ -28,6 +28,10 @@ class Objects:
     def call_opaque(self, ex, st, fv, args, kwargs, node):
         if fv.kind == "interp1d":
             return self.interp1d_call(ex, st, fv, args[0], node)
+        if fv.kind == "self":
+            rf = self.ctx.method_of(ex, "__call__", fv)
+            if rf is not None:
+                return self.ctx.lib.call_repo(ex, st, rf, args, kwargs, node)
         raise EngineError("%s:L%d: call of %r outside the subset" % (ex.fnname, node.lineno, fv))
 
     def call_method(self, ex, st, obj, bm, args, kwargs, node):
@@ -53,6 +57,9 @@ class Objects:
 
 
 LIBFUNCS = {
+    "scipy.interpolate.splev": "sp_splev",
+    "scipy.interpolate.splint": "sp_splint",
+    "scipy.interpolate.splrep": "sp_splrep",
     "scipy.interpolate.interp1d": "sp_interp1d",
     "scipy.optimize.brentq": "sp_brentq",
 }
@@ -93,6 +100,32 @@ def _install():
         st.assume(values_equal(fr, 0))
         return r
 
+    def b_sp_splev(self, ex, st, args, kwargs, node):
+        libspec.trusted("scipy splev(x, tck): the value S_tck(x) of the spline (uninterpreted function of the "
+                        "coefficient identity and x)")
+        x, tck = args[0], args[1]
+        der = kwargs.get("der", args[2] if len(args) > 2 else 0)
+        if not (isinstance(der, int) and der == 0) and not (is_z3(der) and ex.implied(st, der == 0)):
+            raise EngineError("splev with der != 0 is outside the subset")
+        S = self.ctx.uf("splev", I, R, R)
+        cid = to_z3(as_int(tck[1]))
+        if isinstance(x, Seq):
+            return Seq(x.n, lambda i: S(cid, to_z3(as_real(x.at(i)))), "array")
+        return S(cid, to_z3(as_real(x)))
+
+    def b_sp_splint(self, ex, st, args, kwargs, node):
+        libspec.trusted("scipy splint(a, b, tck) = F_tck(clamp b) - F_tck(clamp a) for an antiderivative F of the "
+                        "spline on its knot range (FITPACK treats the spline as zero outside the knots)")
+        a, b, tck = as_real(args[0]), as_real(args[1]), args[2]
+        F = self.ctx.uf("splint_F", I, R, R)
+        cid = to_z3(as_int(tck[1]))
+        t = tck[0]
+        lo, hi = as_real(t.at(0)), as_real(t.at(t.n - 1))
+        clamp = lambda v: zite(ex.cmp_lt(v, lo), lo, zite(ex.cmp_gt(v, hi), hi, v))
+        return F(cid, to_z3(clamp(b))) - F(cid, to_z3(clamp(a)))
+
+    L.b_sp_splev = b_sp_splev
+    L.b_sp_splint = b_sp_splint
     L.b_sp_interp1d = b_sp_interp1d
     L.b_sp_brentq = b_sp_brentq
 
